@@ -33,6 +33,7 @@ def run_property(pid, tier, repo=None, write=True):
                 "constant_tables": sorted(getattr(idx, "propagated", {})),
                 "expression_helpers": {k: sorted(set(v)) for k, v in sorted(getattr(idx, "opened", {}).items())},
                 "cursor_lists": {k: v for k, v in sorted(getattr(idx, "scalarised", {}).items())},
+                "yield_from_comprehensions": dict(sorted(getattr(idx, "yieldfroms", {}).items())),
                 "sum_loops": {k: v for k, v in sorted(getattr(idx, "sums", {}).items())},
                 "extend_loops": {k: v for k, v in sorted(getattr(idx, "extends", {}).items())}}
         rep.notes.append({"canonical_view": {k: v for k, v in view.items() if v}})
